@@ -1139,6 +1139,41 @@ pub fn gen_greeneq(seed: u64, tier: &str) -> Vec<String> {
             out.push(format!("iter {} {}", gpath(0, &p1), ops.join(" ")));
         }
     }
+    // a static-text kind offered together with a text that is not its static text: a debug build refuses it (both sides panic);
+    // a release build must still build the tree the kind alone gives -- same token, same lengths, same hash
+    let mut case = n;
+    for (k, st) in STATICS {
+        for wrong in ["+ ", "", "é", "++", "abc", "é→é→"] {
+            if wrong == st {
+                continue;
+            }
+            out.push(format!("case {}", case));
+            case += 1;
+            out.push(format!("cache {}", bes[case % bes.len()]));
+            for with_text in [true, false, true] {
+                out.push("builder c0".into());
+                out.push("start 0".into());
+                out.push(format!("tok 10 {}", hex("1")));
+                out.push("start 1".into());
+                if with_text {
+                    out.push(format!("tok {} {}", k, hex(wrong)));
+                } else {
+                    out.push(format!("stok {}", k));
+                }
+                out.push(format!("tok 10 {}", hex("2")));
+                out.push("finish_node".into());
+                out.push("finish_node".into());
+                out.push("finish".into());
+            }
+            for (a, b) in [(0, 1), (1, 2), (0, 2)] {
+                out.push(format!("geq g{} g{}", a, b));
+            }
+            for g in [0, 1, 2] {
+                out.push(format!("ghash g{}", g));
+                out.push(format!("heads g{}", g));
+            }
+        }
+    }
     out.push(format!("cfg mask {}", u32::MAX));
     out
 }
